@@ -249,7 +249,8 @@ __CPROVER_ensures(__CPROVER_return_value == 0 ==> in->size == __CPROVER_old(in->
 /* what SubpacketParse relies on: the length fields describe what was stored */
 __CPROVER_ensures(__CPROVER_return_value != 0 ==> ((out->notation_name_length <= sizeof(out->notation_name) || out->notation_name_length == __CPROVER_old(out->notation_name_length)) &&
    (out->notation_value_length <= sizeof(out->notation_value) || out->notation_value_length == __CPROVER_old(out->notation_value_length))))
-__CPROVER_ensures(CTX_BUFS_RW(out))
+/* the embedded-signature buffer stays consistent with its length field (SubpacketParse reads it) */
+__CPROVER_ensures(out->embeddedsignaturelen <= MAXALLOC && (out->embeddedsignaturelen == 0 || (__CPROVER_DYNAMIC_OBJECT(out->embeddedsignature) && __CPROVER_r_ok(out->embeddedsignature, out->embeddedsignaturelen))))
 //@ loop 1
 __CPROVER_assigns(i, vec_u8__cell, __CPROVER_object_upto(out->trustregex, sizeof(out->trustregex)))
 __CPROVER_loop_invariant(i <= pkt.size)
@@ -432,5 +433,49 @@ __CPROVER_decreases(ivlen - i)
 __CPROVER_assigns(i, vec_u8__cell, __CPROVER_object_whole(out->encdata))
 __CPROVER_loop_invariant(i <= out->encdatalen)
 __CPROVER_decreases(out->encdatalen - i)
+//@ end
+
+//@ function PacketLengthDecode
+//@ contract
+/* size-only reading of RFC 4880 4.2 (the exact octet-level contract is proved in C19_codecs): a header of 1, 2, 4 or
+ * 5 octets that the input holds, 42 for the old-format indeterminate length (body = the rest), 0 for refusal; a
+ * partial body length is a one-octet new-format header announcing at least one octet */
+__CPROVER_requires(TVEC_OK(in) && __CPROVER_is_fresh(len, sizeof(*len)) && __CPROVER_is_fresh(partlen, sizeof(*partlen)))
+__CPROVER_assigns(*len, *partlen, vec_u8__cell)
+__CPROVER_ensures(__CPROVER_return_value == 0 || __CPROVER_return_value == 1 || __CPROVER_return_value == 2 || __CPROVER_return_value == 4 || __CPROVER_return_value == 5 || __CPROVER_return_value == 42)
+__CPROVER_ensures((__CPROVER_return_value != 0 && __CPROVER_return_value != 42) ==> __CPROVER_return_value <= in->size)
+__CPROVER_ensures(__CPROVER_return_value == 42 ==> (*len == (uint32_t)in->size && !*partlen))
+__CPROVER_ensures((__CPROVER_return_value != 0 && *partlen) ==> (__CPROVER_return_value == 1 && *len >= 1 && newformat))
+//@ end
+
+//@ function PacketBodyExtract
+//@ contract
+/* C12: the body of one packet (all partial chunks) is extracted from input of any length and content, or refused;
+ * memory safe (every iterator range lies inside its vector) and TERMINATING: every further round of the
+ * partial-length loop has consumed at least one octet */
+__CPROVER_requires(TVEC_OK(in) && TVEC_OK(out) && in->size <= ((size_t)1 << 32) && out->size <= ((size_t)1 << 32))
+__CPROVER_assigns(out->size, vec_u8__cell)
+__CPROVER_ensures(out->size >= __CPROVER_old(out->size) && out->size - __CPROVER_old(out->size) <= in->size)
+//@ loop 1
+__CPROVER_assigns(len, partlen, firstlen, work.size, out->size, vec_u8__cell)
+__CPROVER_loop_invariant(work.size <= in->size && out->size >= __CPROVER_loop_entry(out->size) && out->size - __CPROVER_loop_entry(out->size) <= __CPROVER_loop_entry(work.size) - work.size && work.size <= __CPROVER_loop_entry(work.size))
+__CPROVER_decreases(work.size + (partlen ? 1 : 0))
+//@ end
+
+//@ function PacketDecode
+//@ contract
+/* C12: one packet is taken off the front of input of ANY length and content and dispatched to its body decoder (the
+ * decoders are used through their contracts; tag 2 is an assumed stub).  Memory safe, every iterator range inside its
+ * vector, every body decoder called within its precondition, and TERMINATING (partial-length loop). */
+__CPROVER_requires(TVEC_OK(in) && in->size <= ((size_t)1 << 32) && CTX_OK(out) && TVEC_OK(current_packet) && current_packet->size <= ((size_t)1 << 32))
+__CPROVER_requires(VV_OK(c_ik) && __CPROVER_is_fresh(qual, sizeof(*qual)) && __CPROVER_is_fresh(x_rvss_qual, sizeof(*x_rvss_qual)) && __CPROVER_is_fresh(capl, sizeof(*capl)) && __CPROVER_is_fresh(v_i, sizeof(*v_i)))
+__CPROVER_requires(CNT_OK(notations) && CNT_OK(embeddedsigs) && CNT_OK(recipientfprs))
+__CPROVER_assigns(*out, in->size, current_packet->size, *qual, *x_rvss_qual, *capl, *v_i, c_ik->size, __CPROVER_object_whole(c_ik->data), notations->size, embeddedsigs->size, recipientfprs->size, T57_SCRATCH)
+__CPROVER_ensures(in->size <= __CPROVER_old(in->size))
+__CPROVER_ensures(current_packet->size >= __CPROVER_old(current_packet->size) && current_packet->size - __CPROVER_old(current_packet->size) <= __CPROVER_old(in->size) - in->size)
+//@ loop 1
+__CPROVER_assigns(len, partlen, firstlen, in->size, pkt.size, current_packet->size, out->indetlen, vec_u8__cell)
+__CPROVER_loop_invariant(in->size <= __CPROVER_loop_entry(in->size) && pkt.size <= __CPROVER_loop_entry(in->size) - in->size && current_packet->size >= __CPROVER_loop_entry(current_packet->size) && current_packet->size - __CPROVER_loop_entry(current_packet->size) <= __CPROVER_loop_entry(in->size) - in->size)
+__CPROVER_decreases(in->size + (partlen ? 1 : 0))
 //@ end
 
